@@ -2,7 +2,7 @@
 (***************************************************************************)
 (* Hashing to curve groups (C13) at the level of one public call: what     *)
 (* ep_map_sswum / ep_map_basic / ep_map_swift / ep_map_rnd, ep2_map_sswum /*)
-(* ep2_map_basic (/ ep2_map_swift, ed_map, eb_map: validity only) must     *)
+(* ep2_map_basic, eb_map (/ ep2_map_swift, ed_map: validity only) must     *)
 (* return for given input BYTES.                                           *)
 (*                                                                         *)
 (* The construction (RFC 9380 hash_to_curve, with the library's documented *)
@@ -353,7 +353,7 @@ ParamsOk2(e) ==
                   /\ GQ(F, C(3)) = c3 /\ GSgn0(F, C(3)) = 0
                   /\ C(4) = GM(F, GM(F, GN(F, GNat(F, 4)), gz), GI(F, d))
 
-(* ------------------------------------------------------------ Edwards / binary curves: validity only *)
+(* ------------------------------------------------------------ Edwards (validity only) / binary curves *)
 EdCrv(e) == [p |-> FPrime(e), a |-> FAbs(e, e.ca), d |-> FAbs(e, e.cd)]
 EdAbs(e, P) ==
     LET p == FPrime(e)
@@ -367,6 +367,25 @@ ValidEd(e) == /\ e.R.c \in {1, 2, 3} /\ PCanon(e, e.R)
 EbCrv(e) == [f |-> BNorm(e.f), a |-> BNorm(e.ca), b |-> BNorm(e.cb)]
 EbAbs(e, P) ==       \* eb_map returns affine points (z = 1) or infinity (z = 0)
     IF BNorm(P.z) = <<>> THEN EInf ELSE EPt(BNorm(P.x), BNorm(P.y))
+(* eb_map (try-and-increment): k = OS2IP(first min(RLC_FB_BYTES, RLC_MD_LEN) bytes of SHA-256(msg)); x = k   *)
+(* read as a polynomial, k incremented modulo 2^m until y^2 + x y = x^3 + a x^2 + b is solvable, i.e.       *)
+(* Tr(g(x)/x^2) = 0; y = l x with l^2 + l = g(x)/x^2 (two solutions l, l + 1: the points P and -P, the      *)
+(* choice is not documented); R = [h](x, y).                                                                *)
+RECURSIVE FirstXb(_, _, _)
+FirstXb(k, c, m) ==
+    LET x == BNorm(k) IN
+    IF x # <<>> /\ GTrace(GMul(ERhs(x, c), GInv(GSqr(x, c.f), c.f), c.f), c.f) = 0 THEN x
+    ELSE FirstXb(BLow(BAdd(k, <<1>>), m), c, m)
+BasicEb(e) ==
+    LET c  == EbCrv(e)
+        dg == HX!Sha256(e.msg)
+        nb == IF e.fbbytes < e.mdlen THEN e.fbbytes ELSE e.mdlen
+        x  == FirstXb(OS2IP(SubSeq(dg, 1, nb)), c, e.m)
+        t0 == GMul(ERhs(x, c), GInv(GSqr(x, c.f), c.f), c.f)
+        l  == GHalfTrace(t0, c.f)
+        P  == EPt(x, GMul(l, x, c.f))
+    IN  [pt |-> EMulNat(BNorm(e.h.d), P, c), ok |-> GSolves(l, t0, c.f) /\ EOnCurve(P, c) /\ e.m % 2 = 1]
+IsPmEb(e, r) == r.ok /\ (EEq(EbAbs(e, e.R), r.pt) \/ EEq(EbAbs(e, e.R), ENeg(r.pt)))
 ValidEb(e) == /\ e.R.c = 1 /\ BNorm(e.R.z) \in {<<>>, <<1>>}
               /\ BBits(BNorm(e.R.x)) <= e.m /\ BBits(BNorm(e.R.y)) <= e.m
               /\ EOnCurve(EbAbs(e, e.R), EbCrv(e))
@@ -412,7 +431,7 @@ MapAcceptOp(e) ==
       [] e.op = "ep2_map_swift" -> Clean(e) /\ Same(e) /\ Valid2(e)           \* validity only
       [] e.op \in {"ed_map", "ed_map_dst"} ->
             IF Len(e.dst) > 255 THEN Refused(e) ELSE Clean(e) /\ Same(e) /\ ValidEd(e)     \* validity only (C17)
-      [] e.op = "eb_map" -> Clean(e) /\ Same(e) /\ ValidEb(e)                 \* validity only
+      [] e.op = "eb_map" -> Clean(e) /\ Same(e) /\ ValidEb(e) /\ IsPmEb(e, BasicEb(e))
       [] e.op = "restart" -> TRUE
       [] OTHER -> FALSE
 MapAccept(e) == MapAcceptOp(As(e, OpOf(e)))
@@ -445,8 +464,30 @@ ZFailsCrit4(e) ==
     IN  (m.ctmap \/ m.sswu) /\ ~FIsSquare(Gx(F1(e), A, B, FMul(B, FInv(FMul(m.Z, A, p), p), p)), p)
 SomeExceptional(e, s) ==
     Len(s) >= 2 * Lpe(e) /\ (ExceptionalSswu(e, FpOf(e, Chunk(s, 0, Lpe(e)))) \/ ExceptionalSswu(e, FpOf(e, Chunk(s, 1, Lpe(e)))))
+(* C13-swift-exceptional-uninitialised: in the a = 0 branch of              *)
+(* ep_map_swift_impl (src/ep/relic_ep_map.c) the exceptional case w = 2 h3 *)
+(* h8 = 0 (t1 = 0, t2 = 0 or t1^3 + b + t2^2 = 0) calls ep_set_infty(p)    *)
+(* and then falls through to the candidate selection, which reads x2 and   *)
+(* x3 although they were never assigned: the call throws or returns a      *)
+(* point computed from stack contents, and two calls with the same input   *)
+(* disagree.  Reachable through ep_map_rnd in builds with EP_MAP = SWIFT   *)
+(* (and through ep_map_swift for a message expanding to such t1, t2).      *)
+(* Keyed to: SwiftEC defined on the curve, w = 0 for the decoded t1, t2,   *)
+(* no crash.                                                               *)
+SwiftW0(e, s, len) ==
+    LET c  == Crv(e)
+        p  == c.p
+        hl == len \div 2
+        t1 == FpOf(e, SubSeq(s, 1, hl))
+        t2 == FpOf(e, SubSeq(s, hl + 1, 2 * hl))
+        h3 == FAdd(FAdd(FMul(FSqr(t1, p), t1, p), c.b, p), FSqr(t2, p), p)
+    IN  t1 = <<>> \/ t2 = <<>> \/ h3 = <<>>
 MapKnownKeyOp(e) ==
-    CASE e.op = "map_params" /\ ParamsRel1(e, FALSE) -> "C13-sswu-z-criterion4"
+    CASE e.op = "ep_map_rnd" /\ e.defmap = e.SWIFT /\ Len(e.rnd) >= e.rndsz /\ SwiftDefined(e)
+         /\ SwiftW0(e, e.rnd, Len(e.rnd)) /\ e.crash = 0 -> "C13-swift-exceptional-uninitialised"
+      [] e.op = "ep_map_swift" /\ SwiftDefined(e) /\ e.crash = 0
+         /\ SwiftW0(e, XmdOf(e, e.msg, 2 * Lpe(e) + 1).out, 2 * Lpe(e) + 1) -> "C13-swift-exceptional-uninitialised"
+      [] e.op = "map_params" /\ ParamsRel1(e, FALSE) -> "C13-sswu-z-criterion4"
       [] e.op = "ep_map_rnd" /\ e.defmap = e.SSWUM /\ Len(e.rnd) >= e.rndsz /\ ZFailsCrit4(e)
          /\ SomeExceptional(e, e.rnd) /\ Clean(e) /\ Same(e) -> "C13-sswu-z-criterion4"
       [] e.op = "ep_map_sswum" /\ ZFailsCrit4(e) /\ Clean(e) /\ Same(e)
